@@ -34,6 +34,7 @@ CFG = {
         "Swat4.C09.C09_committed_result_spec",
         "Swat4.C09.C09_committedOps_length",
         "Swat4.C09.C09_listing_committed",
+        "Swat4.C09.Example.init_s1",
         "Swat4.C09.facts_writes_fenced",
         "Swat4.C09.facts_tx_calls",
         "Swat4.C09.facts_writers_exec_on_tx",
